@@ -10,11 +10,11 @@ MANIFEST = {
     "text": "Theorems (all lists, unbounded, any hash): folding Append over a list yields root = LIP-0031 batch root (split at the "
             "largest power of two < n), size = length and append path = roots of the perfect sub-trees of the binary expansion; "
             "the (repaired) CalculateRootFromAppendPath predicts exactly the state Append produces; the original code is refuted by a "
-            "computed witness. Proof generation / verification / update through a proof / right witnesses are NOT proved in Coq "
-            "(partial, see docs/C11.md): their faithful executable transcription (index arithmetic with the leading-1 encoding, "
-            "layer structure, sibling search, path-node computation) is tied to the Go code by running both on every case and comparing "
-            "idxs, sibling hashes, verdicts and roots; every implementation answer is also checked against the declarative oracle "
-            "(mroot of the (modified) list; honest proofs verify, every tampering is rejected).",
+            "computed witness. VerifyProof (faithful calculatePathNodes model) is SOUND for leaf claims for every size 1..2^29 and any number "
+            "of claims under an injective branch hash (frontier invariant); GenerateProof+VerifyProof completeness and Update through a "
+            "proof are proved for one leaf (every size), several at once are partial; reload = saved state (codec round trip assumed); "
+            "right witnesses are not proved. All of it is also tied to the Go code by running both on every case (idxs, sibling hashes, "
+            "verdicts, roots) and by the declarative oracle (mroot of the (modified) list; honest proofs verify, tamperings rejected).",
     "note": "Trusted: Coq kernel + vm_compute, in-Coq SHA-256 (checked on FIPS vectors), fidelity of the hand model as sampled by the "
             "correspondence, Go harness and Python glue. SHA-256 collision freeness is a hypothesis of the soundness theorems only.",
 }
